@@ -2494,17 +2494,20 @@ def _forward_subst(fn, module_exprs=None):
                 special.add((a.asname or a.name).split('.')[0])
     defs = {}
     local_only = set()          # temporaries whose operands are re-bound elsewhere: usable only within a straight-line span
+    # another name for a slot of the data (`done = table[d]`): eligible although it is assigned through, and although the root of its
+    # path (`self`, `table`) is - the slot itself is never re-bound (see _unalias); when it is first evaluated is judged like any other
+    alias = _unalias(fn, candidates_only=True) or {}
     for n in ast.walk(fn):
         if isinstance(n, ast.Assign) and len(n.targets) == 1 and isinstance(n.targets[0], ast.Name):
             nm = n.targets[0].id
-            if nm in params or nm in mut or nm in special or stores.get(nm) != 1:
+            if nm in params or (nm in mut and nm not in alias) or nm in special or stores.get(nm) != 1:
                 continue
             if not _pure_expr(n.value):
                 continue
             free = {x.id for x in ast.walk(n.value) if isinstance(x, ast.Name)}
             if nm in free:
                 continue
-            if any((x in mut) for x in free):
+            if any((x in mut) for x in free) and nm not in alias:
                 local_only.add(nm)
             defs[nm] = n
     # a temporary defined from another temporary depends on whatever that one depends on (the decision must not depend on which of
@@ -2519,7 +2522,7 @@ def _forward_subst(fn, module_exprs=None):
                     tfree[nm] |= tfree[x]
                     grown = True
     for nm in tfree:
-        if tfree[nm] & mut:
+        if tfree[nm] & mut and nm not in alias:
             local_only.add(nm)
     # Evaluation must not move across effects: between the definition and the first evaluation of a use (on every path) there may
     # only be effect-free statements.  Later re-evaluations of a pure expression over stable operands give the same value and cannot
@@ -2563,32 +2566,48 @@ def _forward_subst(fn, module_exprs=None):
         return False
 
     def scan(stmts, nm):
-        for st in stmts:
+        """'used': the first thing that matters on every path is an evaluation of nm; 'bad': an effect comes before a use on some
+        path; 'clean': neither a use nor an effect; 'dirty': an effect and no use (a use further on, outside these statements, is bad)."""
+        for k_, st in enumerate(stmts):
+            later = stmts[k_ + 1:]
+
+            def after(result):
+                # an effect happened inside st: any use further on is reached across it
+                if result == 'dirty':
+                    return 'bad' if any(uses(x, nm) for x in later) else 'dirty'
+                return result
             if isinstance(st, ast.If):
                 if uses(st.test, nm):
                     return 'used'
                 if not _pure_expr(st.test):
-                    return 'bad' if any(uses(x, nm) for x in stmts[stmts.index(st):]) else 'clean'
+                    return 'bad' if any(uses(x, nm) for x in stmts[k_:]) else 'dirty'
                 r1, r2 = scan(st.body, nm), scan(st.orelse, nm)
                 if 'bad' in (r1, r2):
                     return 'bad'
                 if r1 == 'used' and r2 == 'used':
                     return 'used'
+                if 'dirty' in (r1, r2):
+                    return after('dirty')
                 continue
             if isinstance(st, (ast.For, ast.While)):
                 hdr = st.iter if isinstance(st, ast.For) else st.test
                 if uses(hdr, nm):
                     return 'used'
                 if not _pure_expr(hdr):
-                    return 'bad' if any(uses(x, nm) for x in stmts[stmts.index(st):]) else 'clean'
-                if scan(st.body, nm) == 'bad' or scan(st.orelse, nm) == 'bad':
+                    return 'bad' if any(uses(x, nm) for x in stmts[k_:]) else 'dirty'
+                r1, r2 = scan(st.body, nm), scan(st.orelse, nm)
+                if 'bad' in (r1, r2):
                     return 'bad'
+                if 'dirty' in (r1, r2):
+                    # the body may run again: a use inside it after the effect is reached across the effect as well
+                    if any(uses(x, nm) for x in st.body + st.orelse):
+                        return 'bad'
+                    return after('dirty')
                 continue
             if uses(st, nm):
-                return 'used' if not isinstance(st, (ast.Try, ast.With)) or True else 'bad'
+                return 'used'
             if not effect_free(st, nm):
-                later = stmts[stmts.index(st) + 1:]
-                return 'bad' if any(uses(x, nm) for x in later) else 'clean'
+                return 'bad' if any(uses(x, nm) for x in later) else 'dirty'
         return 'clean'
 
     def block_of(st):
@@ -3395,7 +3414,6 @@ def normal_form(fn, callee_info=None, consts=None):
         _hoist_terminal_else(c)
         _empty_filled(c)
         _fresh_zeros(c)
-        _unalias(c)
         _max_idiom(c)
         _getattr_default(c)
         _tail_returns(c)
@@ -3487,7 +3505,7 @@ def _path_of(e):
     return ast.unparse(e) if isinstance(b, ast.Name) else None
 
 
-def _unalias(c):
+def _unalias(c, candidates_only=False):
     """`x = A.b[i]` with x bound once: x is another name for that slot, and reads as it (also where it is assigned through or receives a
     mutating call - the object is the same).  Conditions: the right-hand side is a chain of attribute reads / subscripts (and + - of
     names and integers in the indices); every name in it is never re-bound, or is the variable of a loop that holds the binding, or is
@@ -3586,6 +3604,8 @@ def _unalias(c):
             continue
         mapping[x] = v
         drop.add(id(n))
+    if candidates_only:
+        return mapping
     if not mapping:
         return False
     for n in ast.walk(c):
